@@ -328,6 +328,7 @@ impl Director for HistDirector {
             progress: k.progress.clone(),
             results,
             install_result: "res".into(),
+            await_last_ack: true,
         }
     }
     fn reboot_needed(&mut self, _w: &mut Inner, _p: &str) -> bool {
